@@ -32,6 +32,7 @@ MPN_EXTENTS["__gmpn_mul"] = [(0, [(2, 1), (4, 1)])]
 MPN_EXTENTS["__gmpn_mul_n"] = [(0, [(3, 2)])]
 MPN_EXTENTS["__gmpn_sqr"] = [(0, [(2, 2)])]
 MPN_EXTENTS["__gmpn_zero"] = [(0, [(1, 1)])]
+MPN_EXTENTS["__gmpn_store"] = [(0, [(1, 1)])]
 MPN_EXTENTS["__gmpn_tdiv_qr"] = [(1, [(6, 1)])]
 MPN_EXTENTS["__gmpn_divrem_1"] = [(0, [(1, 1), (3, 1)])]
 
@@ -104,12 +105,19 @@ class State:
     def join(self, o, where=0):
         ch = False
         # terms: equal or forgotten (a join symbol per (block, variable) keeps loops finite)
-        for k in set(self.env) | set(o.env):
-            a, b = self.env.get(k, T(0, [(("v", k, 0), 1)])), o.env.get(k, T(0, [(("v", k, 0), 1)]))
+        se, oe = self.env, o.env
+        for k in (se.keys() | oe.keys()) if se.keys() != oe.keys() else se.keys():
+            a, b = se.get(k), oe.get(k)
+            if a is b or a == b:
+                continue
+            if a is None:
+                a = T(0, [(("v", k, 0), 1)])
+            elif b is None:
+                b = T(0, [(("v", k, 0), 1)])
             if a != b:
                 n = T(0, [(("phi", where, k), 1)])
-                if self.env.get(k) != n:
-                    self.env[k] = n
+                if se.get(k) != n:
+                    se[k] = n
                     ch = True
         for k in list(self.alloc):
             if k not in o.alloc or o.alloc[k][0] != self.alloc[k][0]:
@@ -174,6 +182,8 @@ class Analysis:
         self.reset_reports = lambda: None
         self.tmp_backed = set()
         self.exceptions = set()
+        self.summarised = set()          # __dst variables of inline fill / copy macros (one obligation per macro use)
+        self._fills = {}
         self.static_noalias = set()      # frozenset((i, j)) parameter pairs that no call site of a static function aliases
         self.overlap = {}                # callee -> [(i, j, kind, text)]
 
@@ -399,6 +409,8 @@ class Analysis:
             return a if a is not None and a == b else None
         if k == "call" and e.get("callee") in REALLOC_FNS:
             return T(0)
+        if k == "call" and (e.get("callee") in TMP_ALLOC or (e.get("callee") is None and self.is_allocator_call(e) == "alloc")):
+            return T(0)
         if k == "unop" and e["op"] == "&" and e["e"].get("k") == "index":
             return tadd(self.offset(e["e"]["base"], st), self.term(e["e"]["idx"], st))
         return None
@@ -424,8 +436,10 @@ class Analysis:
         else:
             self.stats.bump("extent_refuted", line)
             self.rep("R-EXTENT", line, "overrun:%s" % self.rname(r),
-                     "%s at line %d writes %d limb%s past the %s requested for %s at line %d (the allocation is only known to hold what "
-                     "MPZ_REALLOC / the size test asked for)" % (what, line, d, "" if d == 1 else "s", "size", self.rname(r), eline))
+                     "%s at line %d writes %d limb%s past the size requested for %s at line %d (%s)"
+                     % (what, line, d, "" if d == 1 else "s", self.rname(r), eline,
+                        "the scratch block holds exactly the limbs that were requested" if r[0] in ("T", "H") else
+                        "the allocation is only known to hold what MPZ_REALLOC / the size test asked for"))
 
     # ---- events ---------------------------------------------------------------------------------
     def rep(self, rule, line, sig, what):
@@ -581,6 +595,8 @@ class Analysis:
                              "%s is called at line %d with arguments %d and %d possibly overlapping (%s) and nothing on this path separates "
                              "them (no pointer comparison, no copy to temporary space); the callee requires %s"
                              % (c, line, i, j, bad[2], otxt))
+        if c in ("__gmpn_copyi", "__gmpn_copyd") and len(args) >= 2:
+            self.copy_direction(c, args[0], args[1], st, ne, line)
         ext = MPN_EXTENTS.get(c)
         if ext:
             for dst, lens in ext:
@@ -670,6 +686,7 @@ class Analysis:
                 o = self.offset(rhs, st)
                 if o is not None and len(rv[1]) == 1:
                     st.off[vid] = o
+                self.note_fresh_block(rhs, rv, ct, st, line)
             elif isint:
                 st.flags.pop(vid, None)
                 if rhs is not None:
@@ -721,12 +738,138 @@ class Analysis:
                 self.write({r for (r, f, l, b) in v[1]}, "limbs", st, line)
                 self.const_write({r for (r, f, l, b) in v[1]}, st, ne, line, "limbs are stored through %s" % self.argname(p))
                 idx = tadd(self.term(lhs["idx"], st), T(1)) if k == "index" else T(1)
-                if idx is not None:
+                from r_tmp import base_var
+                bv = base_var(p)
+                if idx is not None and not (bv is not None and bv["id"] in self.summarised):
                     self.check_extent(p, idx, st, line, "the store through %s" % self.argname(p))
+
+    def note_fresh_block(self, rhs, rv, ct, st, line):
+        """p = TMP_ALLOC_LIMBS (n) / (*__gmp_allocate_func) (n * sizeof (mp_limb_t)): the block holds exactly n limbs"""
+        if len(rv[1]) != 1 or "unsigned long *" not in ct or ct.count("*") != 1:
+            return
+        (r, fresh, l0, bs) = next(iter(rv[1]))
+        if r[0] not in ("T", "H") or not bs:
+            return
+        e = rhs
+        while isinstance(e, dict) and e.get("k") == "cast":
+            e = e["e"]
+        calls = []
+        if isinstance(e, dict) and e.get("k") == "cond":
+            calls = [e["a"], e["b"]]
+        else:
+            calls = [e]
+        sizes = set()
+        for c in calls:
+            while isinstance(c, dict) and c.get("k") == "cast":
+                c = c["e"]
+            if not isinstance(c, dict) or c.get("k") != "call":
+                return
+            cal = c.get("callee")
+            if cal == "__builtin_alloca":
+                a = c["args"][0]
+            elif cal in TMP_ALLOC:
+                a = c["args"][-1]
+            elif cal is None and self.is_allocator_call(c) == "alloc":
+                a = c["args"][0]
+            else:
+                return
+            t = self.term(a, st)
+            if t is None or t[0] % 8 or any(k % 8 for _, k in t[1]):
+                return
+            sizes.add((t[0] // 8, frozenset((s_, k // 8) for s_, k in t[1])))
+        if len(sizes) == 1:
+            st.alloc[r] = (next(iter(sizes)), line)
+            self.stats.bump("fresh_blocks_sized", line)
+
+    INLINE_FILLS = {"mpn_store": "incr0", "MPN_COPY_INCR": "incr1", "MPN_COPY_DECR": "decr1"}
+
+    def copy_direction(self, mac, dst_e, src_e, st, ne, line):
+        """R-OVERLAP (direction): MPN_COPY_DECR walks from the top limb down, so it is only right when the destination is not below
+        the source inside one block; MPN_COPY_INCR the other way round.  A base pointer (PTR (x), nothing added) is the lowest address
+        of its block: copying DOWN to a base pointer from a pointer that was advanced inside a block that may be the same one must
+        be an INCR copy (and vice versa)."""
+        d, s_ = self.eval(dst_e, st), self.eval(src_e, st)
+        if not d or not s_ or d[0] != "limb" or s_[0] != "limb":
+            return
+        want_decr = mac in ("MPN_COPY_DECR", "__gmpn_copyd")
+        self.stats.bump("copy_direction_obligations", (line, mac))
+        od, os_ = self.offset(dst_e, st), self.offset(src_e, st)
+        for (rd, fd, ld, bd) in d[1]:
+            for (rs, fs, ls, bs) in s_[1]:
+                if rd[0] not in ("P", "L") or rs[0] not in ("P", "L"):
+                    continue
+                if rd != rs and not self.may_alias(rd, rs, ne):
+                    continue
+                delta = tconst(tadd(od, os_, -1)) if od is not None and os_ is not None and rd == rs else None
+                bad = None
+                if want_decr and ((bd and not bs) or (delta is not None and delta < 0)):
+                    bad = "below"
+                if not want_decr and ((bs and not bd) or (delta is not None and delta > 0)):
+                    bad = "above"
+                if bad:
+                    if not self.fine:
+                        self.stats.bump("overlap_undecided", (line, mac))
+                        return
+                    if ("R-OVERLAP", self.fn["name"], mac) in self.exceptions:
+                        self.stats["reviewed_exceptions"] += 1
+                        return
+                    self.rep("R-OVERLAP", line, "copy-direction:%s" % mac,
+                             "%s at line %d copies inside what may be one block (%s and %s may be the same variable) with the destination %s "
+                             "the source: the %s copy overwrites source limbs before it has read them"
+                             % (mac, line, self.rname(rd), self.rname(rs), bad, "decrementing" if want_decr else "incrementing"))
+                    return
+
+    def inline_fill(self, el, st, ne=frozenset()):
+        """the inline forms of MPN_ZERO / MPN_COPY_INCR / MPN_COPY_DECR declare  __dst  and  __n  and then walk __dst through the
+        block: one extent obligation for the whole fill (the per-limb stores through __dst carry no offset)"""
+        mac = next((m for m in el.get("m", []) if m in self.INLINE_FILLS), None)
+        e = el["e"]
+        if mac is None or e.get("k") != "decl":
+            return
+        slot = self._fills.setdefault((el["line"], mac, id(st)), {})
+        for d in e["decls"]:
+            nm = d["var"].get("name")
+            if nm == "__dst" and "init" in d:
+                slot["dst"] = d["init"]
+                self.summarised.add(d["var"]["id"])
+            elif nm == "__n" and "init" in d:
+                slot["n"] = self.term(d["init"], st)
+                slot["nvar"] = d["var"]["id"]
+            elif nm == "__src" and "init" in d:
+                slot["src"] = d["init"]
+        if "dst" in slot and "src" in slot and not slot.get("dirdone") and mac in ("MPN_COPY_INCR", "MPN_COPY_DECR"):
+            slot["dirdone"] = True
+            dst_e, src_e = slot["dst"], slot["src"]
+            if mac == "MPN_COPY_DECR":
+                # __dst = (dst) + __n, __src = (src) + __n: compare the operands themselves
+                def strip_n(x):
+                    while isinstance(x, dict) and x.get("k") == "cast":
+                        x = x["e"]
+                    if isinstance(x, dict) and x.get("k") == "binop" and x["op"] == "+" and x["r"].get("k") == "var" and x["r"].get("name") == "__n":
+                        return x["l"]
+                    return None
+                dst_e, src_e = strip_n(dst_e), strip_n(src_e)
+            if dst_e is not None and src_e is not None:
+                self.copy_direction(mac, dst_e, src_e, st, ne, el["line"])
+        if "dst" in slot and "n" in slot and not slot.get("done"):
+            slot["done"] = True
+            kind = self.INLINE_FILLS[mac]
+            n = slot["n"]
+            if n is None:
+                return
+            if kind == "incr0":
+                self.check_extent(slot["dst"], n, st, el["line"], "the fill by %s" % mac)
+            elif kind == "incr1":
+                self.check_extent(slot["dst"], tadd(n, T(1)), st, el["line"], "the copy by %s" % mac)
+            else:
+                # __dst = (dst) + __n: the highest limb written is at the initial __dst
+                self.check_extent(slot["dst"], T(1), st, el["line"], "the copy by %s" % mac)
 
     def elem(self, el, st, ne):
         e = el["e"]
         line = el["line"]
+        if el.get("m"):
+            self.inline_fill(el, st, ne)
         if e.get("k") == "call":
             self.do_call(e, st, ne, line)
             return
@@ -829,6 +972,29 @@ class Analysis:
             return ne | {frozenset((ra[1], rb[1]))}
         return ne
 
+    def int_cond(self, cond, st):
+        """truth of a relational condition between two integer terms whose difference is a constant, else None"""
+        c = sa.strip_expect(cond)
+        neg = False
+        while isinstance(c, dict) and c.get("k") == "unop" and c["op"] == "!":
+            c = sa.strip_expect(c["e"])
+            neg = not neg
+        while isinstance(c, dict) and c.get("k") == "cast":
+            c = c["e"]
+        if not isinstance(c, dict) or c.get("k") != "binop" or c["op"] not in ("<", ">", "<=", ">=", "==", "!="):
+            return None
+        for side in (c["l"], c["r"]):
+            x = side
+            while isinstance(x, dict) and x.get("k") == "cast":
+                x = x["e"]
+            if isinstance(x, dict) and ("*" in x.get("ct", x.get("t", "")) or x.get("k") in ("member", "call", "index")):
+                return None
+        d = tconst(tadd(self.term(c["l"], st), self.term(c["r"], st), -1))
+        if d is None:
+            return None
+        v = {"<": d < 0, ">": d > 0, "<=": d <= 0, ">=": d >= 0, "==": d == 0, "!=": d != 0}[c["op"]]
+        return v != neg
+
     def objkey(self, st):
         """which region each object-pointer PARAMETER variable denotes (they get redirected to copies: divisor = temp) and,
         at the finer level, which blocks each limb-pointer variable may name (mpz_mul's `up` is u's block on one path
@@ -890,7 +1056,7 @@ class Analysis:
         init = initial_state(self)
         IN = collections.defaultdict(dict)      # block -> {(ne facts, object-pointer bindings): State}
         IN[fn["entry"]][(frozenset(), self.objkey(init))] = init
-        work = [fn["entry"]]
+        work = {fn["entry"]}
         iters = 0
         while work:
             iters += 1
@@ -898,7 +1064,8 @@ class Analysis:
                 if self.fine:
                     raise OverflowError()
                 raise AnalysisBroken("aliasflow: fixpoint budget exceeded in %s" % fn["name"])
-            bid = work.pop()
+            bid = max(work)
+            work.discard(bid)
             b = self.blocks[bid]
             outs = []
             for (ne, _ok), st0 in list(IN[bid].items()):
@@ -915,6 +1082,9 @@ class Analysis:
                     continue
                 for ne, st in outs:
                     if cond:
+                        tv = self.int_cond(cond, st)
+                        if tv is not None and tv != (si == 0):
+                            continue            # the edge contradicts exact integer terms (loop `j < n` with j = 2, n = 1)
                         st = st.copy()          # refinement is per edge
                         ne2 = self.refine(cond, si == 0, st, ne)
                     else:
@@ -927,9 +1097,9 @@ class Analysis:
                                 raise OverflowError()
                             raise AnalysisBroken("aliasflow: more than 256 alias partitions in %s" % fn["name"])
                         IN[s][key] = st.copy()
-                        work.append(s)
+                        work.add(s)
                     elif cur.join(st, s):
-                        work.append(s)
+                        work.add(s)
         self.stats["partitions_max"] = max((len(v) for v in IN.values()), default=0)
 
 
@@ -1004,8 +1174,7 @@ def overlap_contracts():
 
 def run_rules(prop, only_dirs=("mpz", "mpq", "mpf"), rules=("R-STALE", "R-CLOBBER"), extra_files=()):
     res = dict(findings=[], stats=collections.Counter(), samples=[], notes=[])
-    cfg = sa.Config("built-alias", extra_files=list(extra_files))
-    ex = sa.export(cfg)
+    ex = sa.export(sa.cfg_builtfx())
     sa.check_errors(ex)
     md = set()
     try:
